@@ -11,6 +11,7 @@ CONSTANTS
   Thin = 1
   MaxTr = 1
   MaxTrW = 0
+  ExpPick = {11}
 INIT Init
 NEXT Next
 INVARIANT Export
